@@ -655,7 +655,10 @@ func ExecutePlan(plan *Plan, p ExecuteParams) (result *Result) {
 
 	extErrs, executionFinishFn := handleExtensionsExecutionDidStart(&p)
 	if len(extErrs) != 0 {
-		return &Result{Errors: extErrs}
+		// finish the phase for the extensions whose start hook did run
+		result = &Result{Errors: extErrs}
+		result.Errors = append(result.Errors, executionFinishFn(result)...)
+		return result
 	}
 	defer func() {
 		extErrs := executionFinishFn(result)
